@@ -30,6 +30,8 @@ def run_children(items, seeds):
             json.dump(ch, f)
         for s in seeds:
             env = dict(os.environ, PYTHONHASHSEED=str(s), OMP_NUM_THREADS="1", OPENBLAS_NUM_THREADS="1")
+            if isinstance(s, str):      # "prefix" / "suffix": forced uuid streams (hash seed 0), observed under ids 1001 / 1002
+                env.update(PYTHONHASHSEED="0", VERIF_UUID_STREAM=s, VERIF_OBS_ID={"prefix": "1001", "suffix": "1002"}[s])
             procs.append((s, subprocess.Popen([common.PY, os.path.join(common.VERIF, "harness", "repro_child.py"), path], stdout=subprocess.PIPE, stderr=subprocess.PIPE, text=True, env=env)))
     obs = []
     # bounded parallelism: wait in order (all were started; the OS schedules them)
@@ -47,7 +49,7 @@ def run(tier):
     rep = common.Report("C16", tier)
     rep.rule = ("corpus cases x one operation x default backend x 3 repetitions x PYTHONHASHSEED in the seed list; set_at also with all-equal coordinates; "
                 "non-trivial = cases of families whose lowering iterates over Python sets (update_at, elementwise with implicit choices, reductions with CSE)")
-    rep.assumptions = ["hash-seed resolutions are observed, not forced: quick uses 4 seeds, thorough 16", "numpy backend"]
+    rep.assumptions = ["hash-seed resolutions are observed, not forced: quick uses 4 seeds, thorough 16; the identifiers einx draws (uuid4) are additionally FORCED to two adversarial collision-free streams", "numpy backend"]
     specs = corpus.quick_specs()
     cases = corpus.generate(rep, specs)
     rep.exhaustive = True
@@ -67,7 +69,13 @@ def run(tier):
             items.append({"cid": "c%d" % len(items), "case": c, "op": op, "backend": "numpy", "seed": common.seed() * 101 + i, "implicit": True})
         if c["fam"] == "update_at":
             items.append({"cid": "c%d" % len(items), "case": c, "op": "set_at", "backend": "numpy", "seed": common.seed() * 101 + i, "dupcoords": True})
-    seeds = [0, 1, 2, 5] if tier == "quick" else list(range(16))
+    # descriptions with several unnamed axes (numbers, anonymous ellipsis): the identifiers drawn for them must not matter
+    for rd, shapes in [("a -> a 2 3", [[4]]), ("a [2 3]", [[4, 2, 3]]), ("(a 2) 3 -> 3 a 2", [[8, 3]]), ("... 2 3 -> 3 ... 2", [[4, 2, 3]]),
+                       ("a 2 3, a -> a 2 3", [[4, 2, 3], [4]]), ("[2] a [3] -> a", [[2, 4, 3]]), ("... [2 3]", [[2, 2, 3]])]:
+        op = "sum" if "[" in rd else ("add" if "," in rd else "id")
+        items.append({"cid": "c%d" % len(items), "op": op, "backend": "numpy", "seed": common.seed() * 101 + len(items), "raw": {"desc": rd, "shapes": shapes},
+                      "case": {"fam": "raw", "desc": list(rd), "intoks": [list(rd)]}})
+    seeds = ([0, 1, 2, 5] if tier == "quick" else list(range(16))) + ["prefix", "suffix"]
     obs = run_children(items, seeds)
     rep.evaluations += len(obs)
     d = common.workdir("c16")
@@ -91,7 +99,7 @@ def run(tier):
                 mine = [o for o in obs if o["cid"] == cid]
                 rep.violation({"kind": tag, "fam": it["case"]["fam"], "op": it["op"], "dupcoords": bool(it.get("dupcoords"))},
                               {"item": it, "observations": mine},
-                              "einx.%s(%r)%s: %s: %s" % (it["op"], DC.desc_of(it["case"]) if not it.get("implicit") else ", ".join("".join(t) for t in it["case"]["intoks"]), " with all-equal coordinates" if it.get("dupcoords") else "",
+                              "einx.%s(%r)%s: %s: %s" % (it["op"], (it["raw"]["desc"] if "raw" in it else DC.desc_of(it["case"])) if not it.get("implicit") else ", ".join("".join(t) for t in it["case"]["intoks"]), " with all-equal coordinates" if it.get("dupcoords") else "",
                                                           "outcome depends on PYTHONHASHSEED / repetition" if tag == "IRREPRODUCIBLE" else "two graph=True requests differ",
                                                           sorted({(o["seed"], o["digest"]) for o in mine})[:6]))
     rep.validated += len(items) - len(bad)
@@ -100,6 +108,7 @@ def run(tier):
             rep.nontriv(it["cid"])
     rep.extra["hash_seeds"] = seeds
     rep.extra["distinct_graph_texts_across_seeds"] = sum(1 for it in items if len({o["gtext"] for o in obs if o["cid"] == it["cid"]}) > 1)
+    rep.extra["forced_uuid_streams"] = ["all identifiers share their leading 96 bits", "all identifiers share their trailing 96 bits"]
     rep.sample({"call": [items[0]["op"], DC.desc_of(items[0]["case"])], "observations": [o for o in obs if o["cid"] == items[0]["cid"]][:4]})
     return rep.finish()
 
